@@ -3,6 +3,8 @@ import DcmVerif.Model.Ext
 import DcmVerif.Model.Valid
 import DcmVerif.Model.Orient
 import DcmVerif.Model.Time
+import DcmVerif.Model.Stack
+import DcmVerif.Model.Filter
 /-! `dcmdriver`: one JSON object per input line, one JSON answer per line.  Values of metadata
 are opaque strings (the harness sends the canonical JSON text of each value), so equality in the
 model is string equality. -/
@@ -80,6 +82,15 @@ def getOrnt (j : Json) : Except String (List (Nat × Bool)) := do
 
 def orntJson (o : List (Nat × Bool)) : Json :=
   Json.arr (o.map fun p => Json.arr #[(p.1 : Json), Json.bool p.2]).toArray
+
+def getFiles (j : Json) : Except String (List Stk.F) := do
+  (← j.getArr?).toList.mapM fun e => do
+    let a ← e.getArr?
+    match a.toList with
+    | [v, t, p, i] => pure { v := ← v.getInt?, t := ← t.getInt?, p := ← p.getInt?, id := ← i.getNat? }
+    | _ => .error "bad file tuple"
+
+def idsJson (l : List Stk.F) : Json := Json.arr (l.map fun f => (f.id : Json)).toArray
 
 def pvalJson : Phx.PVal → Json
   | .int n => Json.mkObj [("int", Json.str (toString n))]
@@ -237,6 +248,53 @@ def handle (j : Json) : Except String Json := do
       | .ok secs none => Json.mkObj [("secs", Json.str (toString secs))]
       | .ok secs (some d) => Json.mkObj [("secs", Json.str (toString secs)), ("neg", Json.bool d.neg),
           ("mant", Json.str (toString d.mant)), ("scale", Json.str (toString d.scale))])
+  | "stack_shape" =>
+    let files ← getFiles (← j.getObjVal? "files")
+    let num ← (← j.getObjVal? "num").getNat?
+    let den ← (← j.getObjVal? "den").getNat?
+    pure (match Stk.getShape (Stk.spacingOkInt num den) files with
+      | .invalid => Json.str "invalid"
+      | .ok sS sT sV => Json.mkObj [("ok", Json.arr #[(sS : Json), (sT : Json), (sV : Json)]),
+          ("order", idsJson (Stk.chkSort sS (files.length / sS) files))])
+  | "stack_run" =>
+    let files ← getFiles (← j.getObjVal? "files")
+    let sS ← (← j.getObjVal? "S").getNat?
+    let vols ← (← j.getObjVal? "vols").getNat?
+    let ops ← (← (← j.getObjVal? "ops").getArr?).toList.mapM fun o => do
+      let sv ← o.getStr?
+      match sv with
+      | "shape" => pure Stk.Op.shape
+      | "data" => pure Stk.Op.data
+      | "affine" => pure Stk.Op.affine
+      | "nifti_flip" => pure (Stk.Op.nifti true)
+      | "nifti" => pure (Stk.Op.nifti false)
+      | _ => .error "bad stack op"
+    let rec go (st : Stk.St) (ops : List Stk.Op) (acc : List Json) : Stk.St × List Json :=
+      match ops with
+      | [] => (st, acc.reverse)
+      | o :: os =>
+        let r := Stk.step sS vols st o
+        go r.1 os (idsJson r.2 :: acc)
+    let res := go { files := files, dirty := true } ops []
+    pure (Json.mkObj [("outs", Json.arr res.2.toArray), ("final", idsJson res.1.files),
+      ("dirty", Json.bool res.1.dirty)])
+  | "regex_filter" =>
+    let excl ← getStrList (← j.getObjVal? "excl")
+    let incl ← getStrList (← j.getObjVal? "incl")
+    let keys ← getStrList (← j.getObjVal? "keys")
+    pure (Json.arr (keys.map fun k => Json.bool (regexFilter Flt.matchLit excl incl k)).toArray)
+  | "default_filter" =>
+    let keys ← getStrList (← j.getObjVal? "keys")
+    let ee ← getStrList (← j.getObjVal? "extra_excl")
+    let ei ← getStrList (← j.getObjVal? "extra_incl")
+    pure (Json.arr (keys.map fun k => Json.bool (Flt.cliFilter ee ei k)).toArray)
+  | "filter_meta" =>
+    let e ← getExt (← j.getObjVal? "ext")
+    let drop ← getStrList (← j.getObjVal? "drop")
+    pure (extJson (e.filterMeta fun k => drop.contains k))
+  | "clear_slice_meta" =>
+    let e ← getExt (← j.getObjVal? "ext")
+    pure (extJson e.clearSliceMeta)
   | _ => .error s!"unknown op {op}"
 
 partial def loop (hin hout : IO.FS.Stream) : IO Unit := do
